@@ -21,3 +21,4 @@ for p in glob.glob("findings/*.json"):
 print("markers replaced:", hit)
 PY
 python3 tools/merge_findings.py
+echo "REMINDER: run tools/run_all.sh quick now — a landed fix can change translator facts / behaviour that OTHER properties model (29257b1 for C02 turned C06 red until its model followed)."
